@@ -16,7 +16,7 @@ def obligations(tier, ctx):
     L = 1 if tier == "quick" else 2
     for kind, nm in ((0, "result"), (1, "error"), (2, "notification"), (3, "request")):
         for idt in (("int", "str") if kind != 2 else ("int",)):
-            psels = (4,) if tier == "quick" else (0, 1, 2, 3, 4, 5)
+            psels = ((1, 4) if kind in (0, 3) else (4,)) if tier == "quick" else (0, 1, 2, 3, 4, 5)
             for psel in psels:
                 params = [("rid", idt), ("method", "str"), ("leaf", "str")]
                 pre = ([f"1 <= len(rid) <= 2"] if idt == "str" else [("0 <= rid <= 2" if tier == "quick" else "0 <= rid <= 4")]) + [f"1 <= len(method) <= {L + 1}", f"len(leaf) <= {L}"]
@@ -34,6 +34,6 @@ def obligations(tier, ctx):
             for idt in (("int", "str") if kind == 0 else ("int",)):
                 obs.append(Ob(name=f"outbound_{'req' if kind == 0 else 'notif'}_{'typed' if typed else 'dict'}_{idt}",
                               params=[("rid", "int"), ("method", "str"), ("psel", "int"), ("leaf", "str")],
-                              pre=(["0 <= rid <= 3"] if idt == "str" else ["0 <= rid <= 4"]) + ["1 <= len(method) <= 2", ("psel == 4" if tier == "quick" else "psel in (0, 2, 4)"), "len(leaf) <= 1"] + (["rid in (0, 3)"] if tier == "quick" else []),
+                              pre=(["0 <= rid <= 3"] if idt == "str" else ["0 <= rid <= 4"]) + ["1 <= len(method) <= 2", ("psel in (1, 4)" if tier == "quick" else "psel in (0, 1, 2, 4)"), "len(leaf) <= 1"] + (["rid in (0, 3)"] if tier == "quick" else []),
                               call=f"H.outbound{'_s' if idt == 'str' else '_i'}({kind}, rid, method, psel, leaf, {typed})", backend="F", timeout=400, family="outbound: value handed to each carrier's encoder"))
     return obs
